@@ -233,9 +233,20 @@ var c06Ctr int
 
 // runCell stores the AR (and its tree blob if treeState says so) and checks the three front ends.
 func (p *c06Pool) runCell(rep *vlib.Report, cfg string, sh c06Shape, assign []byte, cls string) {
+	p.runCellOver(rep, cfg, sh, assign, cls, nil, false, "")
+}
+
+// runCellOver: as runCell, but the slots in over refer to the given digests
+// instead (aliasing between references: same blob twice, or the same hash
+// with two different sizes); overMissing says whether one of them names a
+// digest that is not stored.
+func (p *c06Pool) runCellOver(rep *vlib.Report, cfg string, sh c06Shape, assign []byte, cls string, over map[int]*pb.Digest, overMissing bool, overName string) {
 	rep.Eval()
 	c06Ctr++
 	pick := func(j int) *pb.Digest {
+		if d, ok := over[j]; ok {
+			return d
+		}
 		s := p.slots[j]
 		switch assign[j] {
 		case 'P':
@@ -250,7 +261,7 @@ func (p *c06Pool) runCell(rep *vlib.Report, cfg string, sh c06Shape, assign []by
 		panic("bad assignment")
 	}
 	ar, tree, treeSlot := sh.build(pick)
-	allThere := true
+	allThere := !overMissing
 	for j := 0; j < len(assign); j++ {
 		if assign[j] == 'A' || assign[j] == 'S' {
 			allThere = false
@@ -288,7 +299,7 @@ func (p *c06Pool) runCell(rep *vlib.Report, cfg string, sh c06Shape, assign []by
 	}
 	// a control blob used just before: referenced local blobs must end up more recent
 	ans := p.ask(key)
-	id := fmt.Sprintf("%s shape=[%s] referenced=%s -> grpc=%s GET=%d HEAD=%d", cfg, sh.name, string(assign), ans.grpc, ans.httpGet, ans.httpHead)
+	id := fmt.Sprintf("%s shape=[%s] referenced=%s%s -> grpc=%s GET=%d HEAD=%d", cfg, sh.name, string(assign), overName, ans.grpc, ans.httpGet, ans.httpHead)
 	replay := map[string]interface{}{"cell": id, "legend": "P present, A absent, S stored with another size, B backend only; slots in the order files, tree digest, tree files, stdout, stderr"}
 	wantG, wantH := "miss", 404
 	if allThere {
@@ -316,8 +327,34 @@ func (p *c06Pool) runCell(rep *vlib.Report, cfg string, sh c06Shape, assign []by
 			rep.Violate(k+" hit returns another message", id, replay)
 		}
 	}
-	rep.Nontrivial(sh.name + "|" + string(assign))
+	rep.Nontrivial(sh.name + "|" + string(assign) + overName)
 	rep.Outcome(wantG)
+}
+
+// c06Aliases: for every ordered pair of reference slots (i<j) of the shape,
+// all other slots present: both name the same stored blob (hit); i correct and
+// j the same hash with another size (miss); i with another size and j correct
+// (miss); both the same absent digest (miss).
+func c06Aliases(rep *vlib.Report, p *c06Pool, cfg string, sh c06Shape) {
+	k := sh.refs()
+	all := bytes.Repeat([]byte("P"), k)
+	_, _, treeSlot := sh.build(func(j int) *pb.Digest { return p.slots[j].present })
+	for i := 0; i < k; i++ {
+		for j := i + 1; j < k; j++ {
+			if i == treeSlot || j == treeSlot {
+				continue
+			}
+			good := p.slots[i].present
+			bad := &pb.Digest{Hash: good.Hash, SizeBytes: good.SizeBytes + 1}
+			small := &pb.Digest{Hash: good.Hash, SizeBytes: good.SizeBytes - 1}
+			abs := p.slots[i].absent
+			p.runCellOver(rep, cfg, sh, all, "alias", map[int]*pb.Digest{i: good, j: good}, false, fmt.Sprintf(" alias %d==%d", i, j))
+			p.runCellOver(rep, cfg, sh, all, "alias", map[int]*pb.Digest{i: good, j: bad}, true, fmt.Sprintf(" alias %d good, %d same hash size+1", i, j))
+			p.runCellOver(rep, cfg, sh, all, "alias", map[int]*pb.Digest{i: good, j: small}, true, fmt.Sprintf(" alias %d good, %d same hash size-1", i, j))
+			p.runCellOver(rep, cfg, sh, all, "alias", map[int]*pb.Digest{i: bad, j: good}, true, fmt.Sprintf(" alias %d same hash size+1, %d good", i, j))
+			p.runCellOver(rep, cfg, sh, all, "alias", map[int]*pb.Digest{i: abs, j: abs}, true, fmt.Sprintf(" alias %d==%d absent", i, j))
+		}
+	}
 }
 
 func enumAssign(k int, alphabet string, fn func([]byte)) {
@@ -363,6 +400,9 @@ func TestC06(t *testing.T) {
 			continue
 		}
 		enumAssign(k, alphabet, func(a []byte) { p.runCell(rep, cfg, sh, a, "shape") })
+		if k >= 2 {
+			c06Aliases(rep, p, cfg, sh)
+		}
 	}
 	if shard == 0 {
 		// many files: across the fail-fast batch size of 20
